@@ -58,9 +58,10 @@ def gate(R, prog, crate, env):
     def ver(which):
         # Ok value of <which>.parse::<Version>() — directly or through a local parsing helper
         def f(t):
-            if t[0] != "payload":
+            if t[0] not in ("payload", "field"):
                 return False
-            return any(any(s_[0] == "call" and s_[1] == "core::str::parse" and which(s_[2][0]) for s_ in subterms(tf)) for tf in forms(prog, t, 2))
+            # (also as a component of a small struct built by a helper: `UpgradePath::stored(storage)?.from`)
+            return any(tf[0] == "payload" and any(s_[0] == "call" and s_[1] == "core::str::parse" and which(s_[2][0]) for s_ in subterms(tf)) for tf in forms(prog, t, 3 if t[0] == "field" else 2))
         return f
 
     v_stored = ver(lambda x: x[0] == "field" and x[2] == "version" and stored(x[1]))
